@@ -6,6 +6,7 @@ import c_api
 import c_txn
 import c_iso
 import c_conc
+import c_meta
 import thms
 
 TRUSTED = [
@@ -142,7 +143,11 @@ def run_c03(tier, seed):
                       "replay_text": "correspondence L-node (Model/Sched.lean vs src/impl_/sodium_ctx.rs update_node/end_of_transaction) no longer checks; theorem sched_glitch_free of Props/C03.lean no longer applies to the code\n"
                                      f"# first disagreement: impl `{h}` model `{m}`\n" + "\n".join(s) + "\n", "signature": None})
     c = cov["correspondence"]
-    return {"coverage": cov, "violations": viols, "summary": f"L-node scripts={c['scripts']} txns={c['transactions']} disagreements={c['model_vs_impl_disagreements']} truth_failures={c['impl_vs_ground_truth_failures']}"}
+    api = c_api.run_api_prop("C03", tier, seed)
+    cov["correspondence_api"] = api["coverage"]["correspondence"]
+    cov["api_input_distribution"] = api["coverage"]["input_distribution"]
+    viols += api["violations"]
+    return {"coverage": cov, "violations": viols, "summary": f"L-node scripts={c['scripts']} txns={c['transactions']} disagreements={c['model_vs_impl_disagreements']} truth_failures={c['impl_vs_ground_truth_failures']} " + api["summary"]}
 
 
 def make_api_run(pid, with_txn=False, extra=None):
@@ -157,6 +162,19 @@ def make_api_run(pid, with_txn=False, extra=None):
             extra(tier, seed, out)
         return out
     return run
+
+
+def meta_c09(tier, seed, out):
+    base, var, ra, rb, bad = c_meta.check(tier, seed)
+    out["coverage"]["metamorphic"] = {"programs": len(base), "variants_differing": len(bad),
+        "rule": "each program also run in a variant with independent definitions and listener registrations reordered, clones/drops of unused handles and explicit collections inserted; per-listener sequences and samples must be equal (implementation only, no oracle)",
+        "sample_variant": " ; ".join(var[0][:20])}
+    out["summary"] += f" metamorphic programs={len(base)} differing={len(bad)}"
+    if bad:
+        k = bad[0]
+        a = c_meta.per_listener(base[k], ra[k][0]); b = c_meta.per_listener(var[k], rb[k][0])
+        out["violations"].append({"what": f"outputs depend on construction order / handle lifetime / collection timing ({len(bad)} programs): {a} vs {b}", "found_input": True, "signature": None,
+            "replay_text": "# two programs differing only in construction order, clones/drops of unused handles and gc lines deliver different outputs\n# program A\n" + "\n".join(base[k]) + "\n# program B (variant)\n" + "\n".join("#B " + l for l in var[k]) + "\n"})
 
 
 API_TEXT = {
@@ -187,13 +205,13 @@ PROPS = {
             "level_text": "Theorems about M_gc (a line-by-line executable model of gc_node.rs) for every object graph and history; the model is tied to the code by comparing the full hidden collector state after every operation of random (quick) and exhaustively enumerated (thorough) histories, and the implementation is separately checked against a reachability ground truth to find concrete failing histories.",
             "level_note": "Trusted: Lean kernel (+propext, Classical.choice, Quot.sound), the hand-written model, the harness with synthetic objects (destructor releases its out-edges), hook accessors. Bounded only in the tie: <=6 objects/<=40 ops random, <=3 objects length 7 and <=2 objects length 9 exhaustive.",
             "design_ref": "DESIGN.md section 6, C08"},
-    "C16": {"modules": ["SodiumVerif.Props.C16"], "audit_import": "SodiumVerif.Props.C16", "theorems": c_gc.C16_THEOREMS,
+    "C16": {"modules": ["SodiumVerif.Props.C16", "SodiumVerif.Props.C16b"], "audit_import": ["SodiumVerif.Props.C16", "SodiumVerif.Props.C16b"], "theorems": c_gc.C16_THEOREMS,
             "run": run_c16, "replay": gc_replay,
             "technique": "Lean 4 cost/termination theorems on M_gc with trace-call counters + exact counter correspondence with the hooked collector on graph families",
             "level_text": "Termination (fuel never exhausted) and a linear bound on trace() calls per pass are theorems about M_gc for every graph; the model's counters must equal the real collector's hook counters exactly on ladders of diamonds, fans, chains, rings and random shared graphs at doubling sizes, and the implementation's own counters are checked against the linear bound and a doubling-ratio test.",
             "level_note": "Cost is counted in trace() invocations and tracer callbacks, never wall-clock. Trusted as for C08; the hook counters in GcNode::trace.",
             "design_ref": "DESIGN.md section 6, C16"},
-    "C03": {"modules": ["SodiumVerif.Props.C03"], "audit_import": "SodiumVerif.Props.C03", "theorems": c_sched.C03_THEOREMS,
+    "C03": {"modules": ["SodiumVerif.Props.C03", "SodiumVerif.Props.Refine"], "audit_import": ["SodiumVerif.Props.C03", "SodiumVerif.Props.Refine"], "theorems": c_sched.C03_THEOREMS,
             "run": run_c03, "replay": node_replay,
             "technique": "Lean 4 theorem on the scheduler model M_sched (every DAG, every registration order) + exact update-order correspondence with update_node on raw Node graphs",
             "level_text": "Glitch freedom is a theorem about M_sched for every finite DAG, registration order and set of fired sources; the model's update order must equal the real update_node's on random DAGs and on every DAG with <=4 (quick) / <=5 (thorough) nodes x registration orders x fired subsets, and the implementation is separately checked against a direct glitch predicate to find concrete failing graphs.",
@@ -212,12 +230,13 @@ PROPS["C19"] = {
 }
 
 PROPS["C20"] = {
-    "modules": ["SodiumVerif.Props.C20"], "audit_import": ["SodiumVerif.Props.C20"],
-    "theorems": ["SodiumVerif.Conc.serial_both_delivered", "SodiumVerif.Conc.lost_send_witness", "SodiumVerif.Conc.merged_txn_witness",
+    "modules": ["SodiumVerif.Props.C20", "SodiumVerif.Props.C20b"], "audit_import": ["SodiumVerif.Props.C20", "SodiumVerif.Props.C20b"],
+    "theorems": ["SodiumVerif.Conc.send_alone", "SodiumVerif.Conc.program_alone", "SodiumVerif.Conc.serial_delivers_all", "SodiumVerif.Conc.exclusive_delivers_all",
+                 "SodiumVerif.Conc.exclusive_exactly_once", "SodiumVerif.Conc.serial_both_delivered", "SodiumVerif.Conc.lost_send_witness", "SodiumVerif.Conc.merged_txn_witness",
                  "SodiumVerif.Conc.same_sink_overwrite_witness", "SodiumVerif.Conc.unsafe_inventory"],
     "run": c_conc.check, "replay": c_conc.replay,
     "technique": "Lean 4 model of threads at schedule-point granularity (M_conc) with machine-checked counterexample executions; every enumerated schedule forced on real threads through the library's schedule hooks and compared with the model; outcomes classified against the property (partial: the property is false, known finding D7)",
-    "level_text": "PARTIAL. The property is false of the model and of the code: lost_send_witness, merged_txn_witness and same_sink_overwrite_witness are complete executions of M_conc (checked by kernel evaluation), and the harness replays each enumerated schedule on two real threads with baton passing at the library's schedule points; the model must predict every outcome, and every outcome is classified (lost / duplicate / residue / panic / hung). The lost-send classes are known findings (D7: no transaction lock); any other class, or a model/implementation disagreement, is reported.",
+    "level_text": "PARTIAL. Positive part: serial_delivers_all / exclusive_delivers_all — if the threads' sends do not overlap (any order of whole sends, any number of threads and sends) every send is delivered exactly once and the context ends idle. Negative part: the property is false of the model and of the code: lost_send_witness, merged_txn_witness and same_sink_overwrite_witness are complete executions of M_conc (checked by kernel evaluation), and the harness replays each enumerated schedule on two real threads with baton passing at the library's schedule points; the model must predict every outcome, and every outcome is classified (lost / duplicate / residue / panic / hung). The lost-send classes are known findings (D7: no transaction lock); any other class, or a model/implementation disagreement, is reported.",
     "level_note": "Schedules are at schedule-point granularity: finer interleavings, torn or reordered accesses (GcNodeData.color is a plain Cell under unsafe impl Sync, Relaxed counters), and lock fairness are outside the model; absence of a bad schedule here would prove nothing about the runtime. decide +kernel is used for the witness theorems (kernel evaluation, no extra axioms).",
     "design_ref": "DESIGN.md section 6, C20",
 }
@@ -227,7 +246,7 @@ for _pid in ["C01", "C02", "C04", "C05", "C10", "C11", "C12", "C13", "C14", "C15
     if not _t: continue
     PROPS[_pid] = {
         "modules": thms.MODULES[_pid], "audit_import": thms.MODULES[_pid], "theorems": _t,
-        "run": make_api_run(_pid, with_txn=_pid in ("C01", "C12", "C14")), "replay": c_api.replay,
+        "run": make_api_run(_pid, with_txn=_pid in ("C01", "C12", "C14"), extra=meta_c09 if _pid == "C09" else None), "replay": c_api.replay,
         "technique": "Lean 4 theorems on " + API_TEXT[_pid][0] + "; differential correspondence of the real library with the Lean specification S on generated programs",
         "level_text": "Theorems: " + API_TEXT[_pid][0] + ". Tie: every generated script (" + API_TEXT[_pid][1] + ") is executed on the real library in-process and on the executable Lean specification S, outputs compared line by line (callbacks with the line at which they ran, samples, forced lazies, panics, idle observables); any disagreement is minimised and reported with the script as replay.",
         "level_note": "Trusted: Lean kernel (+propext, Classical.choice, Quot.sound), the hand-written S and models, harness and generators. The theorems are about S / the mechanism models; that the code refines S is checked by differential execution, not proved. 64-bit wrapping integers; single-threaded.",
